@@ -51,7 +51,13 @@ pub struct Inject {
     pub payload: [u8; MAXTOK],
     pub len: usize,
     pub pos: usize,
+    /// Concrete bit mask of the token kinds this sequence may contain (bit k = kind k). Arms of
+    /// `make` for excluded kinds are guarded by this constant, so the symbolic execution prunes
+    /// them (an `assume` on the symbolic kind alone does not stop CBMC from exploring the arm).
+    pub mask: u32,
 }
+pub const MASK_ALL: u32 = (1 << 21) - 1;
+pub const MASK_NO_TAGS: u32 = MASK_ALL & !(1 << 19) & !(1 << 3);
 
 pub const NAMES: [&str; 3] = ["a", "b", "c"];
 /// (handle, prefix) pairs for %TAG directives.
@@ -65,13 +71,13 @@ impl Inject {
         // token i occupies [3i+1, 3i+3): ordered, disjoint, non-empty, line 1
         Span::new(Marker::new(3 * i + 1, 1, 3 * i + 1), Marker::new(3 * i + 3, 1, 3 * i + 3))
     }
-    pub fn make<'a>(kind: u8, payload: u8, i: usize) -> Token<'a> {
+    pub fn make<'a>(kind: u8, payload: u8, i: usize, mask: u32) -> Token<'a> {
         let p = payload as usize;
         let tt = match kind {
             tk::STREAM_START => TokenType::StreamStart(TEncoding::Utf8),
             tk::STREAM_END => TokenType::StreamEnd,
             tk::VERSION_DIRECTIVE => TokenType::VersionDirective(1, 2),
-            tk::TAG_DIRECTIVE => {
+            tk::TAG_DIRECTIVE if mask & (1 << 3) != 0 => {
                 let (h, pre) = DIRECTIVES[p % DIRECTIVES.len()];
                 TokenType::TagDirective(Cow::Borrowed(h), Cow::Borrowed(pre))
             }
@@ -88,9 +94,9 @@ impl Inject {
             tk::FLOW_ENTRY => TokenType::FlowEntry,
             tk::KEY => TokenType::Key,
             tk::VALUE => TokenType::Value,
-            tk::ALIAS => TokenType::Alias(Cow::Borrowed(NAMES[p % NAMES.len()])),
-            tk::ANCHOR => TokenType::Anchor(Cow::Borrowed(NAMES[p % NAMES.len()])),
-            tk::TAG => {
+            tk::ALIAS if mask & (1 << 17) != 0 => TokenType::Alias(Cow::Borrowed(NAMES[p % NAMES.len()])),
+            tk::ANCHOR if mask & (1 << 18) != 0 => TokenType::Anchor(Cow::Borrowed(NAMES[p % NAMES.len()])),
+            tk::TAG if mask & (1 << 19) != 0 => {
                 let (h, s) = TAGS[p % TAGS.len()];
                 TokenType::Tag(String::from(h), String::from(s))
             }
@@ -116,7 +122,7 @@ impl<'input, T: Input> Scanner<'input, T> {
         }
         let i = inj.pos;
         inj.pos += 1;
-        let t = Inject::make(inj.kinds[i], inj.payload[i], i);
+        let t = Inject::make(inj.kinds[i], inj.payload[i], i, inj.mask);
         self.tokens_parsed += 1;
         self.mark = t.0.end;
         match t.1 {
@@ -126,4 +132,456 @@ impl<'input, T: Input> Scanner<'input, T> {
         }
         Ok(Some(t))
     }
+}
+
+// ------------------------------------------------------------------------------------------------
+// Scanner unit harnesses (mode D: real Scanner<StrInput> over a symbolic ASCII text).
+// ------------------------------------------------------------------------------------------------
+
+pub const MAXT: usize = 12;
+
+/// Symbolic text of exactly `n` chars, each chosen from `alphabet` (concrete table, symbolic index).
+fn sym_text(buf: &mut [u8; MAXT], n: usize, alphabet: &[u8]) {
+    let mut i = 0;
+    while i < n {
+        let k: u8 = kani::any();
+        kani::assume((k as usize) < alphabet.len());
+        buf[i] = alphabet[k as usize];
+        i += 1;
+    }
+}
+
+fn as_str<'a>(buf: &'a [u8; MAXT], n: usize, label: &str) -> &'a str {
+    sym::note_bytes(label, &buf[..n]);
+    unsafe { std::str::from_utf8_unchecked(&buf[..n]) }
+}
+
+/// Reference position arithmetic (C12): advance `(index, line, col)` over the ASCII bytes
+/// `text[..n]`; CR LF, lone CR and LF each count as one line break.
+fn ref_advance(index: usize, line: usize, col: usize, text: &[u8], n: usize) -> (usize, usize, usize) {
+    let (mut ix, mut ln, mut co) = (index, line, col);
+    let mut i = 0;
+    while i < n {
+        let b = text[i];
+        ix += 1;
+        if b == b'\n' {
+            ln += 1;
+            co = 0;
+        } else if b == b'\r' {
+            if i + 1 < n && text[i + 1] == b'\n' {
+                // CR of a CR LF pair: the LF ends the line
+                co += 1;
+            } else {
+                ln += 1;
+                co = 0;
+            }
+        } else {
+            co += 1;
+        }
+        i += 1;
+    }
+    (ix, ln, co)
+}
+
+fn sym_mark() -> Marker {
+    let i: usize = kani::any();
+    let l: usize = kani::any();
+    let c: usize = kani::any();
+    kani::assume(i < 1000 && l >= 1 && l < 1000 && c < 1000);
+    Marker::new(i, l, c)
+}
+
+/// Pos invariant: the scanner's mark is the start mark advanced over exactly the consumed text.
+fn pos_holds(sc: &Scanner<'_, StrInput<'_>>, m0: Marker, text: &[u8], n: usize) -> bool {
+    let consumed = n - sc.input.verif_remaining();
+    let (ix, ln, co) = ref_advance(m0.index(), m0.line(), m0.col(), text, consumed);
+    sc.mark.index() == ix && sc.mark.line() == ln && sc.mark.col() == co
+}
+
+const WS_ALPHABET: [u8; 7] = [b' ', b'\t', b'\n', b'\r', b'#', b'a', b':'];
+const WS_ALPHABET_NOCR: [u8; 6] = [b' ', b'\t', b'\n', b'#', b'a', b':'];
+
+/// Scanner context for whitespace skipping: 0 top level, 1 inside an indented block (indent 2),
+/// 2 inside a flow collection.
+fn set_context(sc: &mut Scanner<'_, StrInput<'_>>, ctx: u8) {
+    sc.stream_start_produced = true;
+    match ctx {
+        0 => {}
+        1 => {
+            sc.indents.push(Indent { indent: -1, needs_block_end: false });
+            sc.indents.push(Indent { indent: 0, needs_block_end: true });
+            sc.indent = 2;
+        }
+        _ => {
+            sc.flow_level = 1;
+        }
+    }
+}
+
+/// C12/C14: skip_linebreak consumes exactly one line break of any style and advances one line.
+#[kani::proof]
+#[kani::unwind(6)]
+pub fn c12_skip_linebreak() {
+    let mut buf = [0u8; MAXT];
+    let n: usize = kani::any();
+    kani::assume(n <= 3);
+    sym_text(&mut buf, 3, &WS_ALPHABET);
+    let s = as_str(&buf, n, "text");
+    let mut sc = Scanner::new(StrInput::new(s));
+    let m0 = sym_mark();
+    sc.mark = m0;
+    sc.input.lookahead(2);
+    sc.skip_linebreak();
+    assert!(pos_holds(&sc, m0, &buf, n), "C12: mark is not the position of the consumed text after skip_linebreak");
+    let consumed = n - sc.input.verif_remaining();
+    if n >= 2 && buf[0] == b'\r' && buf[1] == b'\n' {
+        assert!(consumed == 2 && sc.mark.line() == m0.line() + 1 && sc.mark.col() == 0, "C14: CR LF is not consumed as one break");
+    } else if n >= 1 && (buf[0] == b'\n' || buf[0] == b'\r') {
+        assert!(consumed == 1 && sc.mark.line() == m0.line() + 1 && sc.mark.col() == 0, "C14: LF / CR is not consumed as one break");
+    } else {
+        assert!(consumed == 0, "C12: skip_linebreak consumed a non-break");
+    }
+    kani::cover!(consumed == 2, "must: crlf consumed");
+    std::mem::forget(sc);
+}
+
+/// C12/C14: skip_break / read_break under their precondition (next char is a break).
+#[kani::proof]
+#[kani::unwind(6)]
+pub fn c12_skip_break_read_break() {
+    let mut buf = [0u8; MAXT];
+    let n: usize = kani::any();
+    kani::assume(n >= 1 && n <= 3);
+    sym_text(&mut buf, 3, &WS_ALPHABET);
+    kani::assume(buf[0] == b'\n' || buf[0] == b'\r');
+    let s = as_str(&buf, n, "text");
+    let mut sc = Scanner::new(StrInput::new(s));
+    let m0 = sym_mark();
+    sc.mark = m0;
+    sc.input.lookahead(2);
+    let read: bool = kani::any();
+    let mut out = String::new();
+    if read {
+        sc.read_break(&mut out);
+        assert!(out.len() == 1 && out.as_bytes()[0] == b'\n', "C14: a line break is not reported as a line feed");
+    } else {
+        sc.skip_break();
+    }
+    assert!(pos_holds(&sc, m0, &buf, n), "C12: mark is not the position of the consumed text after skip_break");
+    let consumed = n - sc.input.verif_remaining();
+    let want = if n >= 2 && buf[0] == b'\r' && buf[1] == b'\n' { 2 } else { 1 };
+    assert!(consumed == want && sc.mark.line() == m0.line() + 1 && sc.mark.col() == 0, "C14: break not consumed as exactly one line break");
+    kani::cover!(consumed == 2 && read, "must: crlf read");
+    std::mem::forget(out);
+    std::mem::forget(sc);
+}
+
+/// C12 (+C06 tab rule): skip_to_next_token / skip_yaml_whitespace keep the Pos invariant on every
+/// text of up to N chars over the whitespace alphabet, in three contexts; they stop only at a
+/// character that is not whitespace / a comment.
+fn ws_unit<const N: usize>(which: u8, ctx: u8) {
+    let mut buf = [0u8; MAXT];
+    let n: usize = kani::any();
+    kani::assume(n <= N);
+    sym_text(&mut buf, N, &WS_ALPHABET);
+    let s = as_str(&buf, n, "text");
+    let mut sc = Scanner::new(StrInput::new(s));
+    set_context(&mut sc, ctx);
+    let lw: bool = kani::any();
+    sc.leading_whitespace = lw;
+    let m0 = Marker::new(0, 1, 0);
+    let r = if which == 0 { sc.skip_to_next_token() } else { sc.skip_yaml_whitespace() };
+    assert!(pos_holds(&sc, m0, &buf, n), "C12: mark is not the position of the consumed text after skipping whitespace");
+    let rem = sc.input.verif_remaining();
+    if r.is_ok() {
+        if rem > 0 {
+            let c = buf[n - rem];
+            let stops = if which == 0 { c == b'a' || c == b':' } else { c == b'a' || c == b':' || c == b'\t' };
+            assert!(stops, "C12: whitespace skipping stopped before a character it should have skipped");
+        }
+    } else if which == 0 {
+        // the only error: a tab used as block indentation followed by content
+        assert!(ctx == 1, "C06: tab error outside of a block context");
+    }
+    kani::cover!(r.is_ok() && n - rem == N && N > 0, "must: whole text skipped");
+    kani::cover!(r.is_err(), "error reached");
+    std::mem::forget(r);
+    std::mem::forget(sc);
+}
+macro_rules! ws_harness {
+    ($name:ident, $n:expr, $which:expr, $ctx:expr) => {
+        #[kani::proof]
+        #[kani::unwind(8)]
+        pub fn $name() {
+            ws_unit::<$n>($which, $ctx);
+        }
+    };
+}
+ws_harness!(c12_skip_to_next_token_top_2, 2, 0, 0);
+ws_harness!(c12_skip_to_next_token_block_2, 2, 0, 1);
+ws_harness!(c12_skip_to_next_token_flow_2, 2, 0, 2);
+ws_harness!(c12_skip_yaml_whitespace_top_2, 2, 1, 0);
+ws_harness!(c12_skip_to_next_token_top_3, 3, 0, 0);
+ws_harness!(c12_skip_to_next_token_block_3, 3, 0, 1);
+ws_harness!(c12_skip_to_next_token_flow_3, 3, 0, 2);
+ws_harness!(c12_skip_yaml_whitespace_top_3, 3, 1, 0);
+ws_harness!(c12_skip_to_next_token_top_4, 4, 0, 0);
+ws_harness!(c12_skip_to_next_token_block_4, 4, 0, 1);
+
+/// C14: the same unit on a CR-free text X and on X with every LF replaced by CR LF (or lone CR)
+/// ends with the same outcome, at the same line and column, before the same character.
+fn ws_break_style<const N: usize>(which: u8, ctx: u8) {
+    let mut x = [0u8; MAXT];
+    let n: usize = kani::any();
+    kani::assume(n <= N);
+    sym_text(&mut x, N, &WS_ALPHABET_NOCR);
+    let crlf: bool = kani::any();
+    let mut y = [0u8; MAXT];
+    let mut m = 0;
+    let mut i = 0;
+    while i < N {
+        if i < n {
+            if x[i] == b'\n' {
+                y[m] = b'\r';
+                m += 1;
+                if crlf {
+                    y[m] = b'\n';
+                    m += 1;
+                }
+            } else {
+                y[m] = x[i];
+                m += 1;
+            }
+        }
+        i += 1;
+    }
+    let sx = as_str(&x, n, "lf_text");
+    let sy = as_str(&y, m, "substituted_text");
+    let mut a = Scanner::new(StrInput::new(sx));
+    let mut b = Scanner::new(StrInput::new(sy));
+    set_context(&mut a, ctx);
+    set_context(&mut b, ctx);
+    let (ra, rb) = if which == 0 {
+        (a.skip_to_next_token(), b.skip_to_next_token())
+    } else {
+        (a.skip_yaml_whitespace(), b.skip_yaml_whitespace())
+    };
+    assert!(ra.is_ok() == rb.is_ok(), "C14: line-break style changes success/failure");
+    assert!(a.mark.line() == b.mark.line() && a.mark.col() == b.mark.col(), "C14: line-break style changes the reported line/column");
+    let (rema, remb) = (a.input.verif_remaining(), b.input.verif_remaining());
+    assert!((rema == 0) == (remb == 0), "C14: line-break style changes where skipping stops");
+    if rema > 0 && remb > 0 {
+        assert!(x[n - rema] == y[m - remb], "C14: line-break style changes the character skipping stops at");
+    }
+    assert!(a.simple_key_allowed == b.simple_key_allowed, "C14: line-break style changes simple-key state");
+    kani::cover!(m > n, "must: a substitution that lengthens the text");
+    std::mem::forget((ra, rb));
+    std::mem::forget((a, b));
+}
+macro_rules! ws_break_harness {
+    ($name:ident, $n:expr, $which:expr, $ctx:expr) => {
+        #[kani::proof]
+        #[kani::unwind(10)]
+        pub fn $name() {
+            ws_break_style::<$n>($which, $ctx);
+        }
+    };
+}
+ws_break_harness!(c14_skip_to_next_token_top_2, 2, 0, 0);
+ws_break_harness!(c14_skip_to_next_token_block_2, 2, 0, 1);
+ws_break_harness!(c14_skip_yaml_whitespace_top_2, 2, 1, 0);
+ws_break_harness!(c14_skip_yaml_whitespace_flow_2, 2, 1, 2);
+ws_break_harness!(c14_skip_to_next_token_top_3, 3, 0, 0);
+ws_break_harness!(c14_skip_to_next_token_block_3, 3, 0, 1);
+ws_break_harness!(c14_skip_yaml_whitespace_top_3, 3, 1, 0);
+ws_break_harness!(c14_skip_yaml_whitespace_flow_3, 3, 1, 2);
+
+/// C04: every double-quoted escape decodes to the code point the YAML 1.2 table gives it; \x, \u,
+/// \U decode their hex digits; anything else is an error. Text after the backslash is symbolic.
+fn ref_named_escape(c: u8) -> Option<u32> {
+    Some(match c {
+        b'0' => 0x00,
+        b'a' => 0x07,
+        b'b' => 0x08,
+        b't' | b'\t' => 0x09,
+        b'n' => 0x0A,
+        b'v' => 0x0B,
+        b'f' => 0x0C,
+        b'r' => 0x0D,
+        b'e' => 0x1B,
+        b' ' => 0x20,
+        b'"' => 0x22,
+        b'/' => 0x2F,
+        b'\\' => 0x5C,
+        b'N' => 0x85,
+        b'_' => 0xA0,
+        b'L' => 0x2028,
+        b'P' => 0x2029,
+        _ => return None,
+    })
+}
+fn ref_hex(b: u8) -> Option<u32> {
+    match b {
+        b'0'..=b'9' => Some((b - b'0') as u32),
+        b'a'..=b'f' => Some((b - b'a' + 10) as u32),
+        b'A'..=b'F' => Some((b - b'A' + 10) as u32),
+        _ => None,
+    }
+}
+
+#[kani::proof]
+#[kani::unwind(12)]
+pub fn c04_escape_sequences() {
+    let mut buf = [0u8; MAXT];
+    buf[0] = b'\\';
+    // escape character: any ASCII byte 1..=126
+    let e: u8 = kani::any();
+    kani::assume(e >= 1 && e < 0x7F);
+    buf[1] = e;
+    let mut i = 2;
+    while i < 10 {
+        let h: u8 = kani::any();
+        kani::assume(h >= 0x20 && h < 0x7F);
+        buf[i] = h;
+        i += 1;
+    }
+    let n: usize = kani::any();
+    kani::assume(n >= 2 && n <= 10);
+    let s = as_str(&buf, n, "text");
+    let mut sc = Scanner::new(StrInput::new(s));
+    let m0 = sym_mark();
+    sc.mark = m0;
+    sc.input.lookahead(2);
+    let start = m0;
+    let r = sc.resolve_flow_scalar_escape_sequence(&start);
+    let digits = match e {
+        b'x' => 2,
+        b'u' => 4,
+        b'U' => 8,
+        _ => 0,
+    };
+    if digits == 0 {
+        match ref_named_escape(e) {
+            Some(cp) => match &r {
+                Ok(c) => {
+                    assert!(*c as u32 == cp, "C04: named escape decodes to the wrong code point");
+                    assert!(n - sc.input.verif_remaining() == 2 && sc.mark.index() == m0.index() + 2 && sc.mark.col() == m0.col() + 2, "C12: escape consumed the wrong amount of input");
+                }
+                Err(_) => assert!(false, "C04: a YAML 1.2 escape is rejected"),
+            },
+            None => assert!(r.is_err(), "C06: unknown escape character accepted"),
+        }
+    } else {
+        let mut value: u64 = 0;
+        let mut ok = true;
+        let mut k = 0;
+        while k < 8 {
+            if k < digits {
+                if 2 + k >= n {
+                    ok = false;
+                } else {
+                    match ref_hex(buf[2 + k]) {
+                        Some(v) => value = value * 16 + v as u64,
+                        None => ok = false,
+                    }
+                }
+            }
+            k += 1;
+        }
+        let scalar = ok && value <= 0x10FFFF && !(value >= 0xD800 && value <= 0xDFFF);
+        match &r {
+            Ok(c) => {
+                assert!(scalar, "C06: truncated or invalid hexadecimal escape accepted");
+                assert!(*c as u64 == value, "C04: hexadecimal escape decodes to the wrong code point");
+                assert!(n - sc.input.verif_remaining() == 2 + digits && sc.mark.index() == m0.index() + 2 + digits, "C12: escape consumed the wrong amount of input");
+            }
+            Err(_) => assert!(!scalar, "C04: a valid hexadecimal escape is rejected"),
+        }
+        kani::cover!(digits == 8 && r.is_ok(), "must: \\U escape decoded");
+        kani::cover!(digits == 4 && r.is_err(), "must: bad \\u escape rejected");
+    }
+    kani::cover!(e == b'P' && r.is_ok(), "must: \\P decoded");
+    std::mem::forget(r);
+    std::mem::forget(sc);
+}
+
+// ------------------------------------------------------------------------------------------------
+// C01 units
+// ------------------------------------------------------------------------------------------------
+
+/// Flow nesting: one step from EVERY flow level: error exactly at 255, never wraps (so the counter
+/// bounds flow nesting for histories of any length).
+#[kani::proof]
+#[kani::unwind(4)]
+pub fn c01_increase_flow_level() {
+    let mut sc = Scanner::new(StrInput::new(""));
+    let lvl: u8 = kani::any();
+    sc.flow_level = lvl;
+    let r = sc.increase_flow_level();
+    if lvl == 255 {
+        assert!(r.is_err(), "C01: flow level wrapped instead of reporting the recursion limit");
+        assert!(sc.flow_level == 255, "C01: flow level changed on error");
+    } else {
+        assert!(r.is_ok() && sc.flow_level == lvl + 1, "C01: flow level not incremented");
+    }
+    kani::cover!(r.is_err(), "must: recursion limit reached");
+    std::mem::forget(r);
+    std::mem::forget(sc);
+}
+
+/// Character source: `spaces` blanks, then up to 3 more characters, then end of input.
+pub struct IndentGen {
+    pub spaces: usize,
+    pub tail: [u8; 3],
+    pub tail_len: usize,
+    pub pos: usize,
+}
+impl Iterator for IndentGen {
+    type Item = char;
+    fn next(&mut self) -> Option<char> {
+        let p = self.pos;
+        if p < self.spaces {
+            self.pos += 1;
+            Some(' ')
+        } else if p - self.spaces < self.tail_len {
+            self.pos += 1;
+            Some(self.tail[p - self.spaces] as char)
+        } else {
+            None
+        }
+    }
+}
+
+/// C01/C10: skipping block-scalar indentation through the 16-slot BufferedInput never asks for more
+/// look-ahead than the buffer holds and never peeks past what it looked ahead (arraydeque panics),
+/// for every indentation 0..=19, every run of 0..=19 spaces and every following 0..=3 characters.
+#[kani::proof]
+#[kani::unwind(24)]
+pub fn c01_block_scalar_indent_buffered() {
+    let spaces: usize = kani::any();
+    kani::assume(spaces <= 19);
+    let indent: usize = kani::any();
+    kani::assume(indent <= 19);
+    let mut tail = [0u8; 3];
+    let alphabet: [u8; 4] = [b' ', b'\n', b'\r', b'a'];
+    let mut i = 0;
+    while i < 3 {
+        let k: u8 = kani::any();
+        kani::assume(k < 4);
+        tail[i] = alphabet[k as usize];
+        i += 1;
+    }
+    let tail_len: usize = kani::any();
+    kani::assume(tail_len <= 3);
+    if sym::playback() {
+        eprintln!("VERIF-INPUT spaces={} indent={} tail={:?}", spaces, indent, &tail[..tail_len]);
+    }
+    let gen = IndentGen { spaces, tail, tail_len, pos: 0 };
+    let mut sc = Scanner::new(crate::input::BufferedInput::new(gen));
+    let mut breaks = String::new();
+    sc.skip_block_scalar_indent(indent, &mut breaks);
+    assert!(sc.mark.col() <= indent.max(sc.mark.col()), "unreachable");
+    kani::cover!(spaces >= 15 && indent >= 15, "must: indentation at the buffer size reached");
+    std::mem::forget(breaks);
+    std::mem::forget(sc);
 }
